@@ -137,15 +137,25 @@ func vSameKey(useWhole bool, a, b cid.Cid) bool {
 	return vBytesEq(a.Hash(), b.Hash())
 }
 
-// VerifH_C07_ReadOnlyAgreesWithScan: for a well-formed archive of two sections (collision
+// VerifH_C07_ReadOnlyAgreesWithScan: for a well-formed archive of two (thorough: three) sections (collision
 // alphabet) in three container shapes, the read-only blockstore and the readable storage answer
 // Has/Get/GetSize/Roots and the key listing exactly as a front-to-back scan would, and agree with
 // each other, for every query CID and option configuration.
 func VerifH_C07_ReadOnlyAgreesWithScan() {
 	root := vCidID("root")
-	secs := []vSection{vValidSection("s1", 1), vValidSection("s2", 1)}
-	// collision freeness of the hash functions on this run
-	vAssume(vImplies(vBytesEq(secs[0].c.Hash(), secs[1].c.Hash()), vBytesEq(secs[0].data, secs[1].data)))
+	nsec, maxData := 2, 1
+	if vTier() == 1 {
+		nsec, maxData = 3, 2
+	}
+	var secs []vSection
+	for i := 0; i < nsec; i++ {
+		s := vValidSection("s", maxData)
+		// collision freeness of the hash functions on this run
+		for _, o := range secs {
+			vAssume(vImplies(vBytesEq(o.c.Hash(), s.c.Hash()), vBytesEq(o.data, s.data)))
+		}
+		secs = append(secs, s)
+	}
 	payload := vPayload(vHeaderV1(root), secs)
 	storeID := vBool("storeIdentity")
 	useWhole := vBool("useWholeCIDs")
